@@ -193,6 +193,8 @@ def main(rep, tier):
     rep.configs.append({"features": "async,http", "profile": "debug", "bodies": len(f.bodies)})
     check.guard(rep, "R1", run, f)
     rep.floor("R1", "rule instances", len([i for i in rep.instances if i["status"] == "ok"]), 10)
+    import check as _c
+    _c.witnesses(rep, "C01", f)
     return rep.finish(
         "Necessary conditions taken from the statement's wording: key normalisation provenance, last-value-wins mutation API, id / role / "
         "flags provenance, Params dispatch rows, frame-length field provenance (never crossed) in all framing implementations.",
